@@ -1344,6 +1344,11 @@ func runShared(id string, c caseDesc) {
 			break
 		}
 		judge(true)
+		if os.Getenv("C16_DEBUG") != "" {
+			for i, p := range probe {
+				fmt.Fprintf(os.Stderr, "PROBE round %d %s conn %d wrote=%q sent=%v recvDone=%v recvOK=%v saw=%q served=%d status=%v handlers=%d\n", round, ord.label, i, p.wroteToken, p.sentAuth, p.recvDone, p.recvOK, p.tokenSeen, atomic.LoadInt32(&p.served), p.sstat, len(p.handlers))
+			}
+		}
 		core.Add("shared_rounds", 1)
 		core.Add("shared_probe_connections", int64(len(probe)))
 		core.Add("evaluations", int64(len(probe)))
